@@ -5,6 +5,7 @@ import GSProofs.Lemmas.PauseConservative
 import GSProofs.Lemmas.PauseWalk
 import GSProofs.Lemmas.PauseEarly
 import GSProofs.Lemmas.PauseLate
+import GSProofs.Lemmas.ExchangeComplete
 import GSProofs.C01
 /-!
 # C06 — Pausing and resuming an exchange does not change its result
@@ -56,14 +57,64 @@ plain run up to block `k` and the plain run from there, spare fuel is never used
 read only at a miss), and the regression `stale_queue_regression` for the defect fixed in /repo
 b4f998f.
 
-NOT proved (statement kept at the end of the file, with the exact missing lemma): the remaining case
-of `requestor_pause_resume_partial` — a resume after which the executor misses locally and RE-OPENS
-the request (new response verified against a non-empty traversal record): C02's completeness for
-N > 0, which the loader agent's `complete_remote_start` (N = 0) and `kahn_schedule` (no `RetryLastLoad`
-after a remote load) do not cover.
+The re-opening resume (the executor misses locally after `Unpause`, goes online again, the new response
+is verified against a non-empty traversal record): `requestor_reopen_partial` — from the requestor
+state parked in the retried load, the whole honest second response in one message gives exactly the
+rest of the reference traversal (composition of `C02`'s `replay_walk` with the executor bridge
+`drive_walk` / `resume_walk`); its hypotheses are facts about the loader at that moment, shown to hold
+on a reached state by an `example`.  NOT proved: that every paused exchange reaches such a state
+(record / store invariants through remote loads), records with failed loads, a second response in
+several messages; see the end of the file.  Responder pauses as seen by the requestor:
+`responder_pause_resume_seen_by_requestor` (one message per transaction; the RequestPaused status is
+ignored: `nonterminal_status_noop`); for another cut into messages only the loader-level
+`C02.kahn_same_messages` exists.
 -/
 namespace GS.C06
 open GS.Loader GS.Requestor GS.PauseResume
+
+/-! ## non-terminal statuses are invisible to the requestor -/
+
+/-- the requestor does not look at a non-terminal status -/
+theorem nonterminal_status_noop (r : Requestor.State) (f k : Bool) (c c' : Nat) (md : List (Cid × Action))
+    (bl : List (Cid × Blk)) (hc : isTerminal c = false) (hc' : isTerminal c' = false) :
+    Requestor.message r f k c md bl = Requestor.message r f k c' md bl := by
+  unfold Requestor.message applyStatus
+  simp only [hc, hc', Bool.false_eq_true, if_false]
+
+/-- two wire messages that differ at most in a non-terminal status -/
+def SameButStatus (m m' : Requestor.Msg) : Prop :=
+  m.fromPeer0 = m'.fromPeer0 ∧ m.known = m'.known ∧ m.md = m'.md ∧ m.blocks = m'.blocks ∧
+  (m.status = m'.status ∨ (isTerminal m.status = false ∧ isTerminal m'.status = false))
+
+/-- message lists that agree message by message up to non-terminal statuses -/
+inductive AllSame : List Requestor.Msg → List Requestor.Msg → Prop where
+  | nil : AllSame [] []
+  | cons {m m' : Requestor.Msg} {ms ms' : List Requestor.Msg} : SameButStatus m m' → AllSame ms ms' → AllSame (m :: ms) (m' :: ms')
+
+theorem AllSame.refl : ∀ (l : List Requestor.Msg), AllSame l l
+  | [] => .nil
+  | _ :: t => .cons ⟨rfl, rfl, rfl, rfl, Or.inl rfl⟩ (AllSame.refl t)
+
+theorem AllSame.append {a a' b b' : List Requestor.Msg} (h1 : AllSame a a') (h2 : AllSame b b') :
+    AllSame (a ++ b) (a' ++ b') := by
+  induction h1 with
+  | nil => exact h2
+  | cons hm _ ih => exact .cons hm ih
+
+theorem feed_status_noop (r : Requestor.State) (a b : List Requestor.Msg) (h : AllSame a b) :
+    feed r a = feed r b := by
+  induction h generalizing r with
+  | nil => rfl
+  | @cons m m' ms ms' hm _ ih =>
+    obtain ⟨h1, h2, h3, h4, h5⟩ := hm
+    have : Requestor.message r m.fromPeer0 m.known m.status m.md m.blocks =
+        Requestor.message r m'.fromPeer0 m'.known m'.status m'.md m'.blocks := by
+      rw [h1, h2, h3, h4]
+      rcases h5 with h5 | ⟨h5, h6⟩
+      · rw [h5]
+      · exact nonterminal_status_noop r _ _ _ _ _ _ h5 h6
+    simp only [feed]
+    rw [this, ih]
 
 /-! ## responder pauses (GS.Responder) -/
 section responder
@@ -95,6 +146,111 @@ theorem responder_pause_resume (s : Store) (stop : Stop) (hst : isPause stop = t
     (sizeAll b.trav.todo + 1) (Nat.lt_succ_self _)
   rw [this]
   simp only [List.append_assoc]
+
+/-! ### what the requestor sees of a responder pause
+
+The responder theorems stop at equality of transactions.  The two facts that carry it over to the
+requestor's RESULT: the `RequestPaused` status (15) — like every non-terminal status — is ignored by
+the requestor (`applyStatus`), and the result does not depend on how the transactions are cut into
+messages.  The first is proved here for the composed requestor model (`nonterminal_status_noop`,
+`feed_status_noop`) and combined with `responder_pause_resume` for the batching "one message per
+transaction" (`responder_pause_resume_seen_by_requestor`).  The second exists at the loader level only
+(`GS.C02.kahn_same_messages`: any valid interleaving of ingests and loads with the same messages
+gives the same loads); its lift to `Requestor.exchange` for a different cut into messages is NOT
+proved. -/
+
+/-- the terminal status a transaction carries, if any -/
+def terminalOf (t : Txn) : Option Nat :=
+  t.findSome? fun
+    | .status st => if isTerminal st.code then some st.code else none
+    | _ => none
+
+/-- the wire message of ONE transaction of the responder (message builder flushed after every
+    transaction): link metadata in order, the blocks that travel, and the transaction's terminal
+    status if it has one — else RequestPaused if the transaction pauses the response, else PartialResponse -/
+def wireStatus (term : Option Nat) (pausing : Bool) : Nat :=
+  match term with
+  | some c => c
+  | none => if pausing then 15 else 14
+
+theorem filterMap_strip {β : Type} (f : ROp → Option β) (hf : f (ROp.status .paused) = none) (t : Txn) :
+    (stripPaused t).filterMap f = t.filterMap f := by
+  unfold stripPaused
+  induction t with
+  | nil => rfl
+  | cons o rest ih =>
+    by_cases ho : o = ROp.status .paused
+    · subst ho
+      simp only [List.filter_cons, bne_self_eq_false, Bool.false_eq_true, if_false, List.filterMap_cons, hf]
+      exact ih
+    · have hb : (o != ROp.status .paused) = true := by simpa using ho
+      simp only [List.filter_cons, hb, if_true, List.filterMap_cons]
+      rw [ih]
+
+def wireOf (t : Txn) : Requestor.Msg :=
+  { fromPeer0 := true, known := true
+    status := wireStatus (terminalOf t) (t.contains (ROp.status .paused))
+    md := t.filterMap fun
+      | .block c pr _ _ => some (c, if pr then Action.present else Action.missing)
+      | _ => none
+    blocks := t.filterMap fun
+      | .block c _ sd _ => if sd then some (c, c) else none
+      | _ => none }
+
+theorem wireOf_strip (t : Txn) : SameButStatus (wireOf t) (wireOf (stripPaused t)) := by
+  have hterm : terminalOf (stripPaused t) = terminalOf t := by
+    unfold terminalOf stripPaused
+    induction t with
+    | nil => rfl
+    | cons o rest ih =>
+      by_cases ho : o = ROp.status .paused
+      · subst ho
+        simp only [List.filter_cons, bne_self_eq_false, Bool.false_eq_true, if_false, List.findSome?_cons]
+        rw [ih]
+        rfl
+      · have hb : (o != ROp.status .paused) = true := by simpa using ho
+        simp only [List.filter_cons, hb, if_true, List.findSome?_cons]
+        rw [ih]
+  refine ⟨rfl, rfl, ?_, ?_, ?_⟩
+  · unfold wireOf; simp only; exact (filterMap_strip _ rfl t).symm
+  · unfold wireOf; simp only; exact (filterMap_strip _ rfl t).symm
+  · unfold wireOf
+    simp only [hterm]
+    cases terminalOf t with
+    | some c => left; rfl
+    | none =>
+      right
+      unfold wireStatus
+      constructor
+      · cases t.contains (ROp.status .paused) <;> decide
+      · cases (stripPaused t).contains (ROp.status .paused) <;> decide
+
+/-- **C06.responder_pause_resume_seen_by_requestor.**  The transactions of a response that pauses
+    (hook or signal, any block) and is resumed, sent one message per transaction, give EVERY requestor
+    (any link tree, local store, skip value) exactly the exchange the uninterrupted response gives
+    it: same final state, same reports.  `responder_pause_resume` (transaction equality apart from
+    the RequestPaused status) + the requestor ignores that status. -/
+theorem responder_pause_resume_seen_by_requestor (s : Store) (stop : Stop) (hst : isPause stop = true) (r : Req)
+    (p : PeerTracker) (run : Run) (p1 : PeerTracker) (run1 : Run) (txns1 : List Txn)
+    (h : executeQuery s stop r p run = (p1, run1, txns1, .paused))
+    (st : List (Loader.Cid × Loader.Blk)) (lt : Requestor.LT) (u : Nat) :
+    Requestor.exchange st lt u ((txns1 ++ (executeQuery s .never r p1 run1).2.2.1).map wireOf) =
+      Requestor.exchange st lt u ((executeQuery s .never r p run).2.2.1.map wireOf) := by
+  rw [responder_pause_resume s stop hst r p run p1 run1 txns1 h]
+  simp only
+  unfold Requestor.exchange
+  have : AllSame ((txns1 ++ (executeQuery s .never r p1 run1).2.2.1).map wireOf)
+      ((stripAll txns1 ++ (executeQuery s .never r p1 run1).2.2.1).map wireOf) := by
+    rw [List.map_append, List.map_append]
+    apply AllSame.append
+    · unfold stripAll
+      clear h
+      induction txns1 with
+      | nil => exact AllSame.nil
+      | cons t rest ih => exact AllSame.cons (wireOf_strip t) ih
+    · exact AllSame.refl _
+  have hf := fun r0 => feed_status_noop r0 _ _ this
+  simp only [hf]
 
 /-- `prepareQuery` of a request that is queued emits one empty transaction only -/
 theorem runStages_ok (p : PeerTracker) (r : Req) (e : Ext) (st : List Stage) :
@@ -311,7 +467,7 @@ theorem reopen_fresh (l : Loader.State) (h : l.isOpen = false) :
 theorem stale_dropped (s : PState) (hp : s.paused = true) (ho : s.R.L.isOpen = false) (m : PauseResume.Msg)
     (hm : (isTerminal m.status && isFailure m.status) = false) :
     PauseResume.step s (.msg m) = (s, []) := by
-  unfold PauseResume.step deliver
+  unfold PauseResume.step PauseResume.deliver
   simp only
   split
   · rfl
@@ -541,6 +697,106 @@ example :
        .sentCancel, .write 3 3, .block 3 [1] false 3, .prog 1] := by
   refine ⟨by decide, by decide, by decide, by decide, by decide, by decide, by decide⟩
 
+/-! ### the re-opening resume, from the state in which the second response has arrived
+
+`requestor_reopen_partial` is the part of case (c) (see the end of the file) that the loader lemmas now
+give: it starts in the requestor state that is parked in the retried load after `Unpause`, the first
+local miss and `SetRemoteOnline(true)`, takes the WHOLE honest second response in one message with its
+final success status, and concludes that the request delivers exactly the rest of the reference
+traversal.  Its hypotheses `hrec … hwin` are facts about the loader state at that moment; that the
+paused and resumed exchange reaches a state satisfying them (record = the loads so far, their blocks in
+the store) is the remaining gap. -/
+
+/-- **C06.requestor_reopen_partial.**  `r`: a request that is running, has been (re-)sent, whose
+    executor is parked in the retried load of `n` (cursor `n :: post`; `root :: pre'` are the links
+    loaded so far, before and after any number of pauses, all answered with data).  The message
+    carries the honest response for do-not-send-first-blocks `w` over the responder's store `rem`
+    (`respItemsW` = `Responder.respondSpec`, `C02.honest_response_is_spec`) and the final status 20 / 21.
+    `L2` is the loader after ingesting it and going offline.  If `L2` has the traversal record of
+    `root :: pre'`, a fresh verifier over it, the response in its queue, the blocks of the prefix in
+    its store, and the negations of C02's two finding classes hold (`hremroot`, `hwin`), then the
+    events of the message (any dead hook configuration `hs`) are exactly the continuation of the
+    reference traversal `refTrav rem lt L2.store` after the prefix, and the store ends as `refTrav`'s. -/
+theorem requestor_reopen_partial (rem : Cid → Bool) (r : Requestor.State) (hs : List Nat) (hd : DeadAt hs r)
+    (root : LNode) (pre' : LT) (n : LNode) (post : LT) (w st : Nat) (hst : st = 20 ∨ st = 21)
+    (hrun : r.phase = .running) (hsent : r.requestSent = true) (hctx : r.ctxCancelled = false)
+    (htodo : r.todo = n :: post) (hdep : ∀ m ∈ n :: post, m.depth ≠ 0)
+    (hwf : Loader.WF (root :: pre' ++ n :: post))
+    (hroot0 : root.path = []) (hne : ∀ m ∈ pre' ++ n :: post, m.path ≠ [])
+    (hdfs : PathsDFS ((root :: pre').map (·.path)))
+    (L2 : Loader.State)
+    (hL2 : L2 = Loader.setOnline (Loader.ingest r.L (mdOf (respItemsW rem (root :: pre' ++ n :: post) [] w))
+      (blocksOfItems (respItemsW rem (root :: pre' ++ n :: post) [] w))) false)
+    (hpend : L2.pending = some (n.path, n.cid)) (hmra : L2.mra = none)
+    (hrec : L2.record = recOfLT (root :: pre')) (hver : L2.ver = some (newVerifier L2.record))
+    (hclosed : L2.isOpen = false)
+    (hq : L2.rq.q = respItemsW rem (root :: pre' ++ n :: post) [] w)
+    (hstale : L2.unfollowed = [] ∨ ∀ x ∈ n :: post, below L2.unfollowed x.path = false)
+    (hheld : ∀ m ∈ root :: pre', holds L2.store m.cid = true)
+    (hremroot : rem root.cid = true)
+    (hwin : ∀ it ∈ L2.rq.q.take w, it.action = .present → holds L2.store it.link = true) :
+    let items := respItemsW rem (root :: pre' ++ n :: post) [] w
+    let res := PauseResume.deliver (hooked hs r) true true st (mdOf items) (blocksOfItems items)
+    ((root :: pre').map (fun m => (m, true))).map keyOf ++ resultsOf res.2 =
+      (refTrav rem (root :: pre' ++ n :: post) L2.store none).1.map keyOf ∧
+    (∀ c, holds res.1.R.L.store c = holds (refTrav rem (root :: pre' ++ n :: post) L2.store none).2 c) ∧
+    res.1.paused = false := by
+  intro items res
+  have hres : res = (hooked hs (Requestor.message r true true st (mdOf items) (blocksOfItems items)).1,
+      (Requestor.message r true true st (mdOf items) (blocksOfItems items)).2) := deliver_dead hs r hd _ _ _ _ _
+  have hsucc : isSuccess st = true := by rcases hst with rfl | rfl <;> decide
+  -- the message: ingest, final status -> offline, the parked load is woken
+  have hmsg : Requestor.message r true true st (mdOf items) (blocksOfItems items) =
+      Requestor.resume { r with L := L2 } := by
+    unfold Requestor.message
+    have hg : ¬ (r.phase != Phase.running || !true || !true) = true := by simp [hrun]
+    rw [if_neg hg]
+    rw [applyStatus_success _ _ hsucc, hL2]
+  have hrw := resume_walk { r with L := L2 } n post hrun hsent hctx htodo hpend hmra hdep
+  have hrp := replay_walk rem { L2 with pending := none } root pre' n post w hwf hroot0 hne hdfs
+    hrec hmra hver hclosed rfl hq hstale hheld hremroot hwin
+  rw [hres, hmsg]
+  simp only at hrw hrp ⊢
+  refine ⟨?_, ?_, rfl⟩
+  · rw [hrw.1, ← List.map_append, hrp.1]
+  · intro c
+    show holds (Requestor.resume { r with L := L2 }).1.L.store c = _
+    rw [hrw.2]
+    exact hrp.2 c
+
+/-- non-vacuity of `requestor_reopen_partial`, on a state REACHED by a paused exchange (concrete values):
+    the requestor holds nothing; the first message of the first response brings blocks 9 and 2 (status
+    PartialResponse); the hook pauses after block 2; `Unpause`; the executor misses block 3 locally,
+    re-opens and re-sends the request with do-not-send-first-blocks 2 and is parked.  That state and the
+    honest second response satisfy every hypothesis of the theorem (the record is the record of the two
+    REMOTE loads), and the message delivers block 3. -/
+example :
+    let root : LNode := ⟨9, [], 0, 1, 0⟩
+    let n2 : LNode := ⟨2, [0], 1, 1, 0⟩
+    let n3 : LNode := ⟨3, [1], 1, 1, 0⟩
+    let rem : Cid → Bool := fun c => [9, 2, 3].contains c
+    let M1 : Requestor.Msg := ⟨true, true, 14, [(9, .present), (2, .present)], [(9, 9), (2, 2)]⟩
+    let parked := PauseResume.exchange [] [root, n2, n3] 0 [2] [toOp M1, PauseResume.Op.unpause]
+    let r := parked.1.R
+    let items : List Item := [⟨9, .present, none⟩, ⟨2, .present, none⟩, ⟨3, .present, some 3⟩]
+    let L2 := Loader.setOnline (Loader.ingest r.L (mdOf items) (blocksOfItems items)) false
+    respItemsW rem [root, n2, n3] [] 2 = items ∧
+    (parked.1.paused = false ∧ parked.1.hookAt = [2] ∧ parked.1.pauseTok = false ∧ parked.1.pendingErr = none) ∧
+    parked.2 = [.sentNew 0, .write 9 9, .block 9 [] false 1, .prog 1, .write 2 2,
+      .block 2 [0] false 2, .prog 1, .sentCancel, .sentNew 2] ∧
+    r.nBlocks = 2 ∧ r.phase = .running ∧ r.requestSent = true ∧ r.ctxCancelled = false ∧ r.todo = [n3] ∧
+    Loader.WF [root, n2, n3] ∧ PathsDFS ([root, n2].map (·.path)) ∧
+    L2.pending = some (n3.path, n3.cid) ∧ L2.mra = none ∧ L2.record = recOfLT [root, n2] ∧
+    L2.ver = some (newVerifier L2.record) ∧ L2.isOpen = false ∧ L2.rq.q = items ∧ L2.unfollowed = [] ∧
+    (∀ m ∈ [root, n2], holds L2.store m.cid = true) ∧
+    (∀ it ∈ L2.rq.q.take 2, it.action = .present → holds L2.store it.link = true) ∧
+    (PauseResume.deliver parked.1 true true 20 (mdOf items) (blocksOfItems items)).2 =
+      [.write 3 3, .block 3 [1] false 3, .prog 1] := by
+  refine ⟨?_, by decide, by decide, by decide, by decide, by decide, by decide, by decide, ?_, by decide, by decide,
+    by decide, by decide, by decide, by decide, by decide, by decide, by decide, by decide, by decide⟩
+  · simp [respItemsW, skipSub]
+  · simp [Loader.WF, subOf, skipSub, below]
+
 /-- **regression (b4f998f).**  Pause at block 1 while the rest of the response — including the item of
     the link the responder lacks — is already queued in the loader; after Unpause the traversal consumes
     the queued item of block 1, meets the queued `missing` item of block 0, misses locally and goes online
@@ -640,33 +896,30 @@ A resume falls in exactly one of three cases, by what the resumed executor does 
          queue; the re-opening executor does exactly that (`kahn_counterexample_retry` shows the
          restriction is necessary), so the order of `second`'s deliveries relative to the resumed
          loads is not covered either.
-     UPDATE (after this file was written): the loader-level core now exists for an ALL-SUCCESSFUL
-     record — `GS.Loader.replay_walk` (`GSProofs/Lemmas/LoaderReplay.lean`, c02-prover): from any closed
-     loader state whose record is `recOfLT (root :: pre')` (every recorded load delivered), with a
-     fresh verifier over that record, no parked load, the honest stream for skip `w` in the queue
-     (`respItemsW rem lt [] w`, = `Responder.respondSpec` by `C02.honest_response_is_spec`), the
-     prefix blocks in the (possibly grown) store, `rem root.cid` and the window condition `hwin`
-     (negations of the two C02 finding classes), `walk s (n :: post)` continues the reference
-     traversal `refTrav rem lt s.store none` and ends with its store.  That IS `reopen_complete` for
-     records without `ok = false` entries.  What still separates it from a theorem about
-     `PauseResume.exchange` (case (c)):
-       1. executor bridge: `Requestor.drive` over a closed loader with `requestSent = true` reports
-          exactly `Loader.walk` (blocks / missing / store) — C02 has only the safety relation
-          `C01.exchange_walk` here, the equality is listed as open in GSProofs/C02.lean as well;
-       2. the state reached by pause + Unpause + first miss + `SetRemoteOnline(true)` + ingest of
-          the whole second response + final status satisfies `replay_walk`'s hypotheses: needs the
-          invariants "record = recOfLT (nodes loaded so far)" and "every loaded block is in the
-          store" along `drive` through local AND remote loads (neither exists), and the parked
-          retried load (`pending = some _`, re-run by `wake`) has to be related to the fresh `load`
-          that `walk` starts with (`C02.kahn_parked` gives this up to `Sim`);
-          starting points in Lemmas/LoaderReplay.lean: `local_walk` (the record along purely local
-          loads is the fold of `record`, pending attempt included) and `afterResponseP_eq` (how the
-          pending attempt is written by the prologue around `retry`);
+     STATE OF THE CASE.  The loader-level core exists for an ALL-SUCCESSFUL record —
+     `GS.Loader.replay_walk` (`GSProofs/Lemmas/LoaderReplay.lean`) —, the executor bridge exists —
+     `GS.Requestor.drive_walk` / `resume_walk` (`Lemmas/RequestorBridge.lean`: once the request has been
+     sent the executor's reports are `Loader.walk`) —, and `requestor_reopen_partial` above composes
+     them: from the requestor state parked in the retried load after the re-open, the whole honest
+     second response in ONE message with its final status yields exactly the continuation of the
+     reference traversal and its store.  Its hypotheses are facts about the loader at that moment
+     (record = `recOfLT` of the loads so far, fresh verifier over it, their blocks in the store, no
+     parked attempt pending in `mra`, stale path-tracker value harmless); they hold on the state reached
+     by a real paused exchange with REMOTE loads before the pause (the `example` after the theorem).
+     What is still open:
+       2. REACHABILITY of those hypotheses in general: the invariants "record = recOfLT (nodes loaded
+          so far)" and "every loaded block is in the store" along `driveP` through local AND remote
+          loads, through pause and `Unpause`.  `Loader.local_walk` / `afterResponseP_eq` give them
+          for purely local loads only;
        3. records with unsuccessful loads (a missing link met before the pause): not covered by
           `replay_walk` (its induction follows a contiguous prefix);
        4. the second response arriving in several messages interleaved with the resumed loads:
           `kahn_schedule` excludes `RetryLastLoad` after a remote load, which is what re-opening
-          does (`kahn_counterexample_retry`).
+          does (`kahn_counterexample_retry`);
+       5. the comparison with the UNINTERRUPTED exchange: `C02.exchange_complete_prefix` characterises it
+          by the same `refTrav` when its response arrives in one message and the local prefix is
+          non-empty (N = 0: `complete_remote_start`, loader level); for an uninterrupted response
+          cut into several messages the executor-level statement is open (item 4 again).
      The statement that would close the case, at the loader level and for every record, is
 
        theorem reopen_complete (rem loc lt) (k ≥ 1) (rec := the traversal record of the first k loads
